@@ -117,6 +117,15 @@ pub fn loc_conv(v: &[u8]) -> String {
             if li2 != li { return "LAWFAIL LanguageIdentifier -> Locale -> LanguageIdentifier is not the identity".into(); }
             let r: &LanguageIdentifier = l.as_ref();
             if r != &li { return "LAWFAIL AsRef<LanguageIdentifier>".into(); }
+            // the conversion carries the identifier it is given, whatever its internal representation:
+            // rebuild it from its parts with the (safe) from_raw_parts_unchecked, variants always boxed
+            let (lg, sc, rg, vs) = li.clone().into_parts();
+            let raw = LanguageIdentifier::from_raw_parts_unchecked(lg, sc, rg, Some(vs.into_boxed_slice()));
+            let via: Locale = raw.clone().into();
+            if via.id != raw { return "LAWFAIL Locale::from(id).id differs from id (identifier rebuilt from raw parts)".into(); }
+            let back2: LanguageIdentifier = via.into();
+            if back2 != raw { return "LAWFAIL LanguageIdentifier -> Locale -> LanguageIdentifier is not the identity (raw parts)".into(); }
+            if raw.to_string() != li.to_string() { return "LAWFAIL raw-parts rebuild prints differently".into(); }
             format!("{} {}", fmt_li(&li), fmt_loc(&back))
         }
         Err(_) => "BADARG".into(),
@@ -139,6 +148,10 @@ pub fn loc_matches(a: &[u8], b: &[u8], ra: bool, rb: bool) -> String {
         (Ok(x), Ok(y)) => {
             let m = x.matches(&y, ra, rb);
             if y.matches(&x, rb, ra) != m { return "LAWFAIL not symmetric".into(); }
+            // the answer is a function of the VALUES: the same object and an equal copy must agree
+            if x.matches(&x, ra, rb) != x.matches(&x.clone(), ra, rb) || y.matches(&y, ra, rb) != y.matches(&y.clone(), ra, rb) {
+                return "LAWFAIL matches() depends on object identity".into();
+            }
             // a LanguageIdentifier can be matched against a Locale's id directly
             let m2 = x.id.matches(&y, ra, rb);
             format!("{} {}", m, m2)
@@ -407,6 +420,13 @@ pub fn run(out: &mut Out, tier: &str, rng: &mut Rng) {
     let firsts = gen::first_tokens();
     out.comment("regression corpus (minimised earlier failures), always first");
     for s in crate::corpus::REGRESS.iter() { parse_ops(out, s.as_bytes()); value_ops(out, s.as_bytes()); }
+    out.comment("real-world tags");
+    for s in crate::corpus::REALWORLD.iter() { parse_ops(out, s.as_bytes()); value_ops(out, s.as_bytes()); }
+    for a in crate::corpus::REALWORLD.iter().take(40) { for b in crate::corpus::REALWORLD.iter().take(40) {
+        let (a, b) = (a.as_bytes(), b.as_bytes());
+        out.case("loc_cmp", &[a, b], || loc_cmp(a, b));
+        out.case("loc_matches", &[a, b, b"1", b"0"], || loc_matches(a, b, true, false));
+    } }
     for b in 0..=255u8 { out.case("ext_type", &[&[b]], || ext_type(&[b])); }
     out.comment("G2: token sequences");
     for f in firsts.iter() {
